@@ -75,8 +75,15 @@ func genRule(r *core.Rand, forApply bool) string {
 		}
 		return "-" + n + "*"
 	case 2:
+		if !forApply && r.Chance(40) {
+			return genSemi(r, n)
+		}
 		return n + ";"
 	case 3:
+		if r.Chance(35) {
+			// a name that is already in canonical spelling: the rule must leave the map alone
+			return "%" + http.CanonicalHeaderKey(n)
+		}
 		return "%" + n
 	case 4, 5, 6:
 		v := genValue(r)
@@ -84,7 +91,7 @@ func genRule(r *core.Rand, forApply bool) string {
 		s := n + sep + v
 		if !forApply {
 			// line endings and control characters the parser has to deal with
-			switch r.Intn(10) {
+			switch r.Intn(12) {
 			case 0:
 				s += "\r\n"
 			case 1:
@@ -99,7 +106,13 @@ func genRule(r *core.Rand, forApply bool) string {
 				s = n + ":" + v + "\n" + genValue(r)
 			case 6:
 				s = n + ":\n\n" + v
+			case 7:
+				s = genSemi(r, n)
+			case 8:
+				s = genCR(r, n, v)
 			}
+		} else if r.Chance(15) {
+			s += ";" // an add rule whose value ends in ';' (accepted without a line break since F9e's repair)
 		}
 		return s
 	default:
@@ -125,6 +138,63 @@ func genRule(r *core.Rand, forApply bool) string {
 		default:
 			return n + genValue(r)
 		}
+	}
+}
+
+// genSemi produces rule strings around the set-empty / add boundary: something ending in ';',
+// optionally followed by a line ending. "name;" is the set-empty rule; "name:value;" is an add rule
+// whose value ends in ';' and must print back to a string that parses to the same rule; anything else
+// ending in ';' (or a set-empty rule followed by a line break) is rejected.
+func genSemi(r *core.Rand, n string) string {
+	var s string
+	switch r.Intn(8) {
+	case 0:
+		s = n + ";"
+	case 1:
+		s = n + ":" + genValue(r) + ";"
+	case 2:
+		s = n + core.Pick(r, []string{": ", ":\t", ":  "}) + genValue(r) + ";"
+	case 3:
+		s = n + ":;"
+	case 4:
+		s = n + ";;"
+	case 5:
+		s = n + core.Pick(r, []string{" ;", "_;", ":;;", "; ;", ";x;"})
+	case 6:
+		s = n + ":" + genValue(r) + ";" + genValue(r) + ";"
+	default:
+		s = core.Pick(r, []string{";", ":;", "-;", "%;", "a:b;", "a;", "-a;", "%a;", "a:;", "a: ;", "a:b;;", "a;b;"})
+	}
+	return s + core.Pick(r, []string{"", "", "\n", "\r\n", "\r", "\n\n", "\r\r\n", ";\n"})
+}
+
+// genCR puts a CR (sometimes an LF) at a chosen position of an add rule — before the colon, right after
+// it, inside the leading white space, at every offset of the value, before the final line ending:
+// wherever the rule is accepted the value must be free of CR and LF.
+func genCR(r *core.Rand, n, v string) string {
+	c := "\r"
+	if r.Chance(15) {
+		c = "\n"
+	}
+	sep := core.Pick(r, []string{":", ": ", ":\t "})
+	end := core.Pick(r, []string{"", "\n", "\r\n", "\r"})
+	switch r.Intn(6) {
+	case 0: // every position of the value
+		i := r.Range(0, len(v))
+		return n + sep + v[:i] + c + v[i:] + end
+	case 1: // inside / around the white space after the colon (\s matches CR and LF)
+		ws := core.Pick(r, []string{c, " " + c, c + " ", " " + c + " ", c + c, c + "\n", "\t" + c + "\t"})
+		return n + ":" + ws + v + end
+	case 2: // before the colon, inside the name
+		i := r.Range(0, len(n))
+		return n[:i] + c + n[i:] + sep + v + end
+	case 3: // several
+		i := r.Range(0, len(v))
+		return n + sep + c + v[:i] + c + v[i:] + c + end
+	case 4: // trailing combinations the tail `\r?\n?$` must or must not absorb
+		return n + sep + v + core.Pick(r, []string{"\r\r", "\r\r\n", "\n\r", "\r\n\r", "\r\n\n", "\r\n\r\n", "\n\n"})
+	default: // value consisting of line-break bytes only
+		return n + ":" + core.Pick(r, []string{"\r", "\r\r", "\r\n\r\n", " \r \n", "\r \r"})
 	}
 }
 
@@ -246,19 +316,12 @@ func checkParse(ctx *core.Ctx, pc parseCase) {
 	if !isToken(h.Name) {
 		ctx.SpecFail("accepted rule has a token name", "", pc, impl, "name is not an RFC 7230 token")
 	}
+	// (F9b and F9e are repaired: no recorded class excuses a failure of these two clauses)
 	if h.Value != nil && strings.ContainsAny(*h.Value, "\r\n") {
-		class := ""
-		if strings.Contains(*h.Value, "\r") && !strings.Contains(*h.Value, "\n") {
-			class = "cr-in-value"
-		}
-		ctx.SpecFail("accepted rule has a value without CR/LF", class, pc, impl, "value contains CR or LF")
+		ctx.SpecFail("accepted rule has a value without CR/LF", "", pc, impl, "value contains CR or LF")
 	}
 	if !strings.HasSuffix(impl, " 1") {
-		class := ""
-		if h.Action == header.Add && strings.HasSuffix(*h.Value, ";") {
-			class = "print-semicolon"
-		}
-		ctx.SpecFail("accepted rule prints back to a string that parses to the same rule", class, pc, impl, "String() does not re-parse to the same rule")
+		ctx.SpecFail("accepted rule prints back to a string that parses to the same rule", "", pc, impl, "String() does not re-parse to the same rule")
 	}
 }
 
@@ -274,7 +337,7 @@ func knownClass(rules []header.Header, m map[string][]string) string {
 			continue
 		}
 		if http.CanonicalHeaderKey(r.Name) == r.Name {
-			return "rename-canonical"
+			continue // respelling to the canonical spelling is the identity (F9a repaired)
 		}
 		for _, q := range rules[i+1:] {
 			if strings.EqualFold(q.Name, r.Name) {
@@ -289,11 +352,8 @@ func knownClass(rules []header.Header, m map[string][]string) string {
 }
 
 // stepClass decides, from one rule and the map it is applied to, whether the step falls in a recorded
-// class (F9a/F9c/F9d).
+// class (F9c/F9d).
 func stepClass(r header.Header, before http.Header, inputHadRaw bool) string {
-	if r.Action == header.RenameCase && http.CanonicalHeaderKey(r.Name) == r.Name {
-		return "rename-canonical"
-	}
 	for k := range before {
 		if http.CanonicalHeaderKey(k) == k {
 			continue
